@@ -27,13 +27,14 @@ if _bad:
 
 
 # ====================================================================== date matchers
-def draw_date(d, p=''):
-    """every calendar day 1900-01-01 .. 2154-12-31 as a bacpypes date tuple; the day of
-    week is tied to the date by the reference ordinal formula"""
+def draw_date(d, p='', months=(1, 12), maxday=31):
+    """every calendar day 1900-01-01 .. 2154-12-31 (of the given months) as a bacpypes date
+    tuple; the day of week is tied to the date by the reference ordinal formula"""
     y = d.int(0, 254, p + 'year')
-    m = d.int(1, 12, p + 'month')
-    day = d.int(1, 31, p + 'day')
-    d.assume(day <= R.month_len(y + 1900, m))
+    m = d.int(months[0], months[1], p + 'month')
+    day = d.int(1, maxday, p + 'day')
+    if maxday > 28:
+        d.assume(day <= R.month_len(y + 1900, m))
     return (y, m, day, R.day_of_week(y + 1900, m, day))
 
 
@@ -48,15 +49,19 @@ def draw_date_pattern(d):
     return (yp, mp, dp, wp)
 
 
-def draw_range_end(d, p):
+def draw_range_end(d, p, kind=None, dow=None, maxday=31):
     """a range limit: wholly unspecified, or a specific valid date whose day-of-week octet
-    is the right one or X'FF'"""
-    if d.bool(p + '_unspecified'):
+    is the right one or X'FF' (kind / dow None: chosen symbolically)"""
+    if kind is None:
+        kind = 'unspecified' if d.bool(p + '_unspecified') else 'specific'
+    if kind == 'unspecified':
         return R.UNSPECIFIED
-    y, m, day, dow = draw_date(d, p + '_')
-    if d.bool(p + '_dow_any'):
-        dow = 255
-    return (y, m, day, dow)
+    y, m, day, w = draw_date(d, p + '_', maxday=maxday)
+    if dow is None:
+        dow = 'any' if d.bool(p + '_dow_any') else 'right'
+    if dow == 'any':
+        w = 255
+    return (y, m, day, w)
 
 
 def draw_weeknday(d):
@@ -67,8 +72,8 @@ def draw_weeknday(d):
     return wnd
 
 
-DATE_BOUNDS = ("date: every calendar day 1900-01-01..2154-12-31 (year, month, day symbolic; day of week = "
-               "reference ordinal formula of the date)")
+DATE_BOUNDS = ("date: every calendar day 1900-01-01..2154-12-31 of months[0]..months[1] (year, month, day symbolic; "
+               "day of week = reference ordinal formula of the date)")
 DATE_OUTSIDE = ("pattern octets that are not code points of clause 20.2.12 / 21 (month 0, 15..254; day 0, 35..254; "
                 "day of week 0, 8..254; week of month 0, 10..254); dates whose day-of-week octet contradicts the date")
 
@@ -76,8 +81,8 @@ DATE_OUTSIDE = ("pattern octets that are not code points of clause 20.2.12 / 21 
 @meta(bounds=DATE_BOUNDS + "; pattern: year octet 0..255, month in {1..14, 255}, day in {1..34, 255}, "
              "day of week in {1..7, 255}, all symbolic",
       outside=DATE_OUTSIDE, stubs=[], assumes=[])
-def match_date(d):
-    date = draw_date(d)
+def match_date(d, months=(1, 12)):
+    date = draw_date(d, months=months)
     pat = draw_date_pattern(d)
     got = S.match_date(date, pat)
     want = R.match_date(date, pat)
@@ -89,8 +94,8 @@ def match_date(d):
 @meta(bounds=DATE_BOUNDS + "; weekNDay: three symbolic octets, month in {1..14, 255}, week of month in {1..9, 255}, "
              "day of week in {1..7, 255}",
       outside=DATE_OUTSIDE, stubs=[], assumes=[])
-def match_weeknday(d):
-    date = draw_date(d)
+def match_weeknday(d, months=(1, 12)):
+    date = draw_date(d, months=months)
     wnd = draw_weeknday(d)
     got = S.match_weeknday(date, wnd)
     want = R.match_weeknday(date, (wnd[0], wnd[1], wnd[2]))
@@ -109,24 +114,25 @@ def _range_verdict(d, date, start, end, got, kind):
                date=date, start=start, end=end, got=got, want=want)
 
 
-@meta(bounds=DATE_BOUNDS + "; start and end date each either wholly unspecified (FF FF FF FF) or any specific "
-             "calendar day 1900..2154 (symbolic) with its day-of-week octet right or FF; start > end included "
-             "(empty range)",
+@meta(bounds=DATE_BOUNDS + "; start / end date per instance either wholly unspecified (FF FF FF FF) or any specific "
+             "calendar day 1900..2154 (symbolic) with its day-of-week octet right or FF (`dow`, the same choice for both "
+             "limits); start > end included (empty range)",
       outside="range limits with some but not all octets unspecified; " + DATE_OUTSIDE, stubs=[], assumes=[])
-def match_date_range(d):
+def match_date_range(d, start, end, dow='right'):
     date = draw_date(d)
-    start = draw_range_end(d, 'start')
-    end = draw_range_end(d, 'end')
-    got = S.match_date_range(date, DateRange(startDate=start, endDate=end))
-    _range_verdict(d, date, start, end, got, "match-date-range")
+    lo = draw_range_end(d, 'start', start, dow)
+    hi = draw_range_end(d, 'end', end, dow)
+    got = S.match_date_range(date, DateRange(startDate=lo, endDate=hi))
+    _range_verdict(d, date, lo, hi, got, "match-date-range")
     d.reach()
 
 
-@meta(bounds="as match_date / match_date_range / match_weeknday, the pattern wrapped in a BACnetCalendarEntry "
-             "of the given choice",
+@meta(bounds="as match_date / match_date_range / match_weeknday, the pattern wrapped in a BACnetCalendarEntry of the given "
+             "choice; maxday=28: the date (and range limits) only on days 1..28 of a month; range limits: unspecified or "
+             "specific, day-of-week octet right or FF, all four choices symbolic",
       outside=DATE_OUTSIDE, stubs=[], assumes=[])
-def calendar_entry(d, choice):
-    date = draw_date(d)
+def calendar_entry(d, choice, months=(1, 12), maxday=31):
+    date = draw_date(d, months=months, maxday=maxday)
     if choice == 'date':
         pat = draw_date_pattern(d)
         got = S.date_in_calendar_entry(date, CalendarEntry(date=pat))
@@ -134,8 +140,8 @@ def calendar_entry(d, choice):
         if bool(got) != want:
             raise Violation("calendar-entry-date", date=date, pattern=pat, got=got, want=want)
     elif choice == 'dateRange':
-        start = draw_range_end(d, 'start')
-        end = draw_range_end(d, 'end')
+        start = draw_range_end(d, 'start', maxday=maxday)
+        end = draw_range_end(d, 'end', maxday=maxday)
         got = S.date_in_calendar_entry(date, CalendarEntry(dateRange=DateRange(startDate=start, endDate=end)))
         _range_verdict(d, date, start, end, got, "calendar-entry-range")
     else:
@@ -513,14 +519,19 @@ def sched_run(d, base, edge, res, start_days, span):
 def instances(tier):
     q = tier == "quick"
     out = []
-    out.append(Inst(match_date, {}, budget=120 if q else 300))
-    out.append(Inst(match_weeknday, {}, budget=120 if q else 300))
-    out.append(Inst(match_date_range, {}, budget=120 if q else 300))
-    for c in ('date', 'dateRange', 'weekNDay'):
-        out.append(Inst(calendar_entry, dict(choice=c), budget=120 if q else 300))
-    A = ['leapday', 'sunday', 'monday']
-    L = ['leapday']
     B = 200
-    for edge in ('none', 'enter', 'exit'):
-        out.append(Inst(sched_run, dict(base='leap', edge=edge, res='h', start_days=(0, 2), span=2), budget=B))
+    halves = [(1, 6), (7, 12)]
+    quarters = [(1, 3), (4, 6), (7, 9), (10, 12)]
+    for ms in halves:
+        out.append(Inst(match_date, dict(months=ms), budget=B))
+    for ms in quarters:
+        out.append(Inst(match_weeknday, dict(months=ms), budget=B))
+    U, SP = 'unspecified', 'specific'
+    out.append(Inst(match_date_range, dict(start=U, end=U), budget=B))
+    for dow in ('right', 'any'):
+        out.append(Inst(match_date_range, dict(start=SP, end=U, dow=dow), budget=B))
+        out.append(Inst(match_date_range, dict(start=U, end=SP, dow=dow), budget=B))
+        out.append(Inst(match_date_range, dict(start=SP, end=SP, dow=dow), budget=B))
+    for c in ('date', 'dateRange', 'weekNDay'):
+        out.append(Inst(calendar_entry, dict(choice=c, maxday=28), budget=B))
     return out
